@@ -10,35 +10,38 @@ open Neatvi Neatvi.Uc Neatvi.Lbuf Neatvi.Ex Neatvi.Mot Neatvi.Vi Neatvi.Rset
 open Neatvi.Lemmas.C05b (CountsFit)
 open Neatvi.Props.C05c (iterate)
 
-/-- the hypotheses on a state from which an iteration starts (they are not invariants): the editor is not
-    quitting; a mark beyond the buffer has column 0, also once the caret mark is set; no counted `/` search
-    typed from the pending keys overruns a line -/
+/-- the hypotheses on a state from which an iteration starts (they are not invariants of C05f's `ViOk`): the editor is
+    not quitting; a mark beyond the buffer has column 0, also once the caret mark is set; the hypotheses on the
+    searches (`SearchOk`: no counted `/` typed from the pending keys overruns a line, the remembered pattern has no
+    NUL, the patterns of `? n N ^A` match inside the lines) and on the ex commands typed from the pending keys
+    (`ColonOk`) -/
 structure StepHyp (s : VS) : Prop where
   noquit : s.ed.xquit = false
   marks : MarksIn s
   caret : MarksIn (markCaret s)
-  slash : SlashOk s
+  search : SearchOk s
+  colon : ColonOk s
 
 /-- **one iteration from a state with the invariant** -/
-theorem viStep_safe (hE : EngineOk) (hX1 : ExNoTrap) (hX2 : ExKeeps) {s : VS} (hv : ViOk s) (hm1 : MarksIn s)
-    (hm2 : MarksIn (markCaret s)) (hsl : SlashOk s) :
+theorem viStep_safe {s : VS} (hv : ViOk s) (hm1 : MarksIn s)
+    (hm2 : MarksIn (markCaret s)) (hsl : SearchOk s) (hcol : ColonOk s) :
     wp viStep (fun _ s' => s'.ed.xquit = false → ViOk s') s := by
-  have h := wp_viStep hE hX1 hX2 hv.sok hv.cur hm1 hm2 hsl
+  have h := wp_viStep hv.sok hv.cur hm1 hm2 hsl hcol
   refine wp_mono (wp_and h (fun a s' hm => Props.C05c.presFit_viStep s a s' hv.fit hm)) ?_
   intro a s' ⟨h1, h2⟩ hq
   exact ⟨(h1 hq).1, (h1 hq).2, h2⟩
 
-theorem viStep_no_trap (hE : EngineOk) (hX1 : ExNoTrap) (hX2 : ExKeeps) {s : VS} (hv : ViOk s) (hm1 : MarksIn s)
-    (hm2 : MarksIn (markCaret s)) (hsl : SlashOk s) : viStep s ≠ Res.trap :=
-  wp_no_trap (viStep_safe hE hX1 hX2 hv hm1 hm2 hsl)
+theorem viStep_no_trap {s : VS} (hv : ViOk s) (hm1 : MarksIn s)
+    (hm2 : MarksIn (markCaret s)) (hsl : SearchOk s) (hcol : ColonOk s) : viStep s ≠ Res.trap :=
+  wp_no_trap (viStep_safe hv hm1 hm2 hsl hcol)
 
-theorem viStep_keeps (hE : EngineOk) (hX1 : ExNoTrap) (hX2 : ExKeeps) {s s' : VS} (hv : ViOk s) (hm1 : MarksIn s)
-    (hm2 : MarksIn (markCaret s)) (hsl : SlashOk s) (h : viStep s = Res.ok () s') (hq : s'.ed.xquit = false) : ViOk s' :=
-  wp_post (viStep_safe hE hX1 hX2 hv hm1 hm2 hsl) h hq
+theorem viStep_keeps {s s' : VS} (hv : ViOk s) (hm1 : MarksIn s)
+    (hm2 : MarksIn (markCaret s)) (hsl : SearchOk s) (hcol : ColonOk s) (h : viStep s = Res.ok () s') (hq : s'.ed.xquit = false) : ViOk s' :=
+  wp_post (viStep_safe hv hm1 hm2 hsl hcol) h hq
 
 /-- **the invariant along a run**: the state after `n` iterations has `ViOk`, provided the states the
     iterations start from satisfy `StepHyp` -/
-theorem viOk_iterate (hE : EngineOk) (hX1 : ExNoTrap) (hX2 : ExKeeps) : ∀ (n : Nat) (s₀ s : VS), ViOk s₀ →
+theorem viOk_iterate : ∀ (n : Nat) (s₀ s : VS), ViOk s₀ →
     (∀ k t, k ≤ n → iterate k s₀ = some t → StepHyp t) → iterate n s₀ = some s → ViOk s := by
   intro n
   induction n with
@@ -58,16 +61,16 @@ theorem viOk_iterate (hE : EngineOk) (hX1 : ExNoTrap) (hX2 : ExKeeps) : ∀ (n :
         intro k t hk ht
         exact hh (k + 1) t (by omega) (by rw [Props.C05c.iterate_succ k s₀ s1 u hst]; exact ht)
       have hq1 := (hh1 0 s1 (by omega) (by unfold iterate; rfl)).noquit
-      exact ih s1 s (viStep_keeps hE hX1 hX2 h0 hs0.marks hs0.caret hs0.slash hst hq1) hh1 h
+      exact ih s1 s (viStep_keeps h0 hs0.marks hs0.caret hs0.search hs0.colon hst hq1) hh1 h
     | eof => rw [hst] at h; cases h
     | trap => rw [hst] at h; cases h
 
 /-- **no trap along a run**: no state reached by iterating `viStep` traps on its next iteration -/
-theorem no_trap_iterate (hE : EngineOk) (hX1 : ExNoTrap) (hX2 : ExKeeps) (n : Nat) (s₀ s : VS) (h0 : ViOk s₀)
+theorem no_trap_iterate (n : Nat) (s₀ s : VS) (h0 : ViOk s₀)
     (hh : ∀ k t, k ≤ n → iterate k s₀ = some t → StepHyp t) (h : iterate n s₀ = some s) : viStep s ≠ Res.trap := by
-  have hv := viOk_iterate hE hX1 hX2 n s₀ s h0 hh h
+  have hv := viOk_iterate n s₀ s h0 hh h
   have hs := hh n s (Nat.le_refl _) h
-  exact viStep_no_trap hE hX1 hX2 hv hs.marks hs.caret hs.slash
+  exact viStep_no_trap hv hs.marks hs.caret hs.search hs.colon
 
 /-! ### the loop of the driver (`Drive/Vi.lean`) -/
 
@@ -101,7 +104,7 @@ theorem loop_states_mem (n : Nat) : ∀ (f : Nat) (s : VS) (bds : List Bd) (sts 
 open Neatvi.Drive.ViD in
 /-- **the driver's loop never ends in a trap**, from a state with the invariant, when the recorded states
     (the states the iterations start from) satisfy `StepHyp` -/
-theorem loop_no_trap (hE : EngineOk) (hX1 : ExNoTrap) (hX2 : ExKeeps) (n : Nat) :
+theorem loop_no_trap (n : Nat) :
     ∀ (f : Nat) (s : VS) (bds : List Bd) (sts : List VS) (um : Option Nat), ViOk s →
       (∀ t ∈ (runModel.loop n f s bds sts um).states, StepHyp t) → NotTrap (runModel.loop n f s bds sts um).fin := by
   intro f
@@ -119,7 +122,7 @@ theorem loop_no_trap (hE : EngineOk) (hX1 : ExNoTrap) (hX2 : ExKeeps) (n : Nat) 
         · exact loop_states_mem n _ _ _ _ _ s this
       · exact List.mem_reverse.mpr this
       · exact List.mem_reverse.mpr this)
-    have hnt := viStep_no_trap hE hX1 hX2 hv hs.marks hs.caret hs.slash
+    have hnt := viStep_no_trap hv hs.marks hs.caret hs.search hs.colon
     unfold runModel.loop at hh ⊢
     dsimp only at hh ⊢
     cases hst : viStep s with
@@ -130,7 +133,7 @@ theorem loop_no_trap (hE : EngineOk) (hX1 : ExNoTrap) (hX2 : ExKeeps) (n : Nat) 
       · rw [if_pos hq]; trivial
       · rw [if_neg hq] at hh ⊢
         have hq' : s'.ed.xquit = false := by simpa using hq
-        exact ih s' _ _ _ (viStep_keeps hE hX1 hX2 hv hs.marks hs.caret hs.slash hst hq') hh
+        exact ih s' _ _ _ (viStep_keeps hv hs.marks hs.caret hs.search hs.colon hst hq') hh
     | eof => trivial
     | trap => exact absurd hst hnt
 
